@@ -1539,7 +1539,8 @@ open_common(kdump_ctx_t *ctx)
 		if (seg->phys == ADDRXLAT_ADDR_MAX)
 			continue;
 
-		pfn = (seg->phys + seg->memsz) >> get_page_shift(ctx);
+		pfn = (seg->phys + seg->memsz + get_page_size(ctx) - 1)
+			>> get_page_shift(ctx);
 		if (pfn > max_pfn)
 			max_pfn = pfn;
 
